@@ -273,6 +273,9 @@ GEN_CONV = (" ALSO, harness/translate_conv.py re-translates Converter.position2v
             "generated/ConvGen.v on every run (argmin expression pinned by text to nearest_index; batched / dataframe conversions pinned by digest); "
             "proofs/ConvTie.v proves the generated functions EQUAL to theories/Converter.v (results and errors).")
 EXTRA = {
+    "C07": (" ALSO, harness/translate_seed.py re-translates utils.set_random_seed into generated/SeedGen.v on every run (numpy's draw expression pinned by text); "
+            "proofs/SeedTie.v proves the generated function equal to Rng.set_random_seed. Theorems C07_source_set_random_seed_equals_model, "
+            "C07_source_seed_overrides_ambient."),
     "C09": (" ALSO, harness/translate_shc.py re-translates StochasticHillClimbingOptimizer.evaluate / _transition / _consider / _execute_transition and the "
             "counting decorators of ParameterTracker into generated/ShcGen.v on every run (acceptance probability = oracle, pinned by digest; "
             "SimulatedAnnealingOptimizer.evaluate checked by text); proofs/ShcTie.v proves the generated evaluate equal to the stochastic branch of "
@@ -346,8 +349,8 @@ def main():
                    source_commits=[], add_only=True),
         engines=[
             dict(name="coq-model", path="/verif/coq", serves_properties=sorted(CLAIMS), kind_free_text="hand-written Gallina model (theories/), lemmas (proofs/), property theorems (props/Prop_Cxx.v, each with Print Assumptions)"),
-            dict(name="source-translators", path="/verif/harness/pytrans.py", serves_properties=["C01", "C02", "C03", "C04", "C05", "C06", "C08", "C09", "C10", "C11", "C12", "C13", "C14", "C15", "C16", "C17", "C18", "C19", "C20"],
-                 kind_free_text="translate_facades.py (C18 data), translate_core.py (tracker layer: C15, C19), translate_driver.py (_stop_run.py, _progress_bar.py: C05, C12-C14), translate_grid.py (grid search: C16, C08), translate_search.py (search.py driver: C03, C12-C14, C18), translate_memory.py (_memory.py wrapper: C06, C11), translate_results.py (_results_manager.py wrapper: C04), translate_coreopt.py (core_optimizer.py moves: C01, C02, C08), translate_init.py (init_positions.py: C10, C02), translate_smbo.py (smbo.py bookkeeping: C17), translate_finish.py (Search.finish_search: C05), translate_pop.py (population split: C10), translate_conv.py (converter.py single conversions: C20, C01), translate_shc.py (stochastic acceptance: C09): Gallina regenerated from /repo's AST on every run, refinement to the hand model proved in proofs/*Tie.v"),
+            dict(name="source-translators", path="/verif/harness/pytrans.py", serves_properties=["C01", "C02", "C03", "C04", "C05", "C06", "C07", "C08", "C09", "C10", "C11", "C12", "C13", "C14", "C15", "C16", "C17", "C18", "C19", "C20"],
+                 kind_free_text="translate_facades.py (C18 data), translate_core.py (tracker layer: C15, C19), translate_driver.py (_stop_run.py, _progress_bar.py: C05, C12-C14), translate_grid.py (grid search: C16, C08), translate_search.py (search.py driver: C03, C12-C14, C18), translate_memory.py (_memory.py wrapper: C06, C11), translate_results.py (_results_manager.py wrapper: C04), translate_coreopt.py (core_optimizer.py moves: C01, C02, C08), translate_init.py (init_positions.py: C10, C02), translate_smbo.py (smbo.py bookkeeping: C17), translate_finish.py (Search.finish_search: C05), translate_pop.py (population split: C10), translate_conv.py (converter.py single conversions: C20, C01), translate_shc.py (stochastic acceptance: C09, C19), translate_seed.py (utils.set_random_seed: C07): Gallina regenerated from /repo's AST on every run, refinement to the hand model proved in proofs/*Tie.v"),
             dict(name="correspondence", path="/verif/harness", serves_properties=sorted(CLAIMS), kind_free_text="K/D/S units: implementation and model run on the same inputs; the model is evaluated inside Coq (generated cases files, vm_compute)"),
             dict(name="monitors", path="/verif/harness/props", serves_properties=sorted(CLAIMS), kind_free_text="direct Python encodings of each property used to find concrete failing inputs (replays); never the proof"),
         ],
